@@ -20,15 +20,14 @@ Inductive out := Refused | Accepted | Nothing.
 
 Record st := mk { nconn : nat; closed : list nat; cl_down : bool; sess_down : bool; cc_down : bool; sched_down : bool;
                   pool : nat -> option (option nat * bool); cc_conn : option nat;
-                  queue : list task; timers : list timer; leaked : bool; nh : nat }.
+                  queue : list task; timers : list timer; nh : nat }.
 
-Definition set_nconn s v := mk v (closed s) (cl_down s) (sess_down s) (cc_down s) (sched_down s) (pool s) (cc_conn s) (queue s) (timers s) (leaked s) (nh s).
-Definition set_closed s v := mk (nconn s) v (cl_down s) (sess_down s) (cc_down s) (sched_down s) (pool s) (cc_conn s) (queue s) (timers s) (leaked s) (nh s).
-Definition set_pool s v := mk (nconn s) (closed s) (cl_down s) (sess_down s) (cc_down s) (sched_down s) v (cc_conn s) (queue s) (timers s) (leaked s) (nh s).
-Definition set_cc s v := mk (nconn s) (closed s) (cl_down s) (sess_down s) (cc_down s) (sched_down s) (pool s) v (queue s) (timers s) (leaked s) (nh s).
-Definition set_queue s v := mk (nconn s) (closed s) (cl_down s) (sess_down s) (cc_down s) (sched_down s) (pool s) (cc_conn s) v (timers s) (leaked s) (nh s).
-Definition set_timers s v := mk (nconn s) (closed s) (cl_down s) (sess_down s) (cc_down s) (sched_down s) (pool s) (cc_conn s) (queue s) v (leaked s) (nh s).
-Definition set_leaked s v := mk (nconn s) (closed s) (cl_down s) (sess_down s) (cc_down s) (sched_down s) (pool s) (cc_conn s) (queue s) (timers s) v (nh s).
+Definition set_nconn s v := mk v (closed s) (cl_down s) (sess_down s) (cc_down s) (sched_down s) (pool s) (cc_conn s) (queue s) (timers s) (nh s).
+Definition set_closed s v := mk (nconn s) v (cl_down s) (sess_down s) (cc_down s) (sched_down s) (pool s) (cc_conn s) (queue s) (timers s) (nh s).
+Definition set_pool s v := mk (nconn s) (closed s) (cl_down s) (sess_down s) (cc_down s) (sched_down s) v (cc_conn s) (queue s) (timers s) (nh s).
+Definition set_cc s v := mk (nconn s) (closed s) (cl_down s) (sess_down s) (cc_down s) (sched_down s) (pool s) v (queue s) (timers s) (nh s).
+Definition set_queue s v := mk (nconn s) (closed s) (cl_down s) (sess_down s) (cc_down s) (sched_down s) (pool s) (cc_conn s) v (timers s) (nh s).
+Definition set_timers s v := mk (nconn s) (closed s) (cl_down s) (sess_down s) (cc_down s) (sched_down s) (pool s) (cc_conn s) (queue s) v (nh s).
 
 Definition close (s : st) (c : nat) : st := set_closed s (c :: closed s).
 Definition close_opt (s : st) (o : option nat) : st := match o with Some c => close s c | None => s end.
@@ -45,19 +44,19 @@ Definition session_shutdown (s : st) : st :=
   if sess_down s then s else
   let conns := flat_map (fun h => match pool_conn (pool s h) with Some c => [c] | None => [] end) (seq 0 (nh s)) in
   mk (nconn s) (conns ++ closed s) (cl_down s) true (cc_down s) (sched_down s) (fun h => shut_pool (pool s h)) (cc_conn s)
-     (queue s) (timers s) (leaked s) (nh s).
+     (queue s) (timers s) (nh s).
 
 (* ControlConnection.shutdown *)
 Definition cc_shutdown (s : st) : st :=
   let s := set_timers s (map (fun t => match t with TCtl _ => TCtl false | t => t end) (timers s)) in
   if cc_down s then s else
   let s := close_opt s (cc_conn s) in
-  mk (nconn s) (closed s) (cl_down s) (sess_down s) true (sched_down s) (pool s) None (queue s) (timers s) (leaked s) (nh s).
+  mk (nconn s) (closed s) (cl_down s) (sess_down s) true (sched_down s) (pool s) None (queue s) (timers s) (nh s).
 
 (* Cluster.shutdown: scheduler.shutdown, control_connection.shutdown, every session.shutdown, executor.shutdown *)
 Definition cluster_shutdown (s : st) : st :=
   if cl_down s then s else
-  let s := mk (nconn s) (closed s) true (sess_down s) (cc_down s) true (pool s) (cc_conn s) (queue s) (timers s) (leaked s) (nh s) in
+  let s := mk (nconn s) (closed s) true (sess_down s) (cc_down s) true (pool s) (cc_conn s) (queue s) (timers s) (nh s) in
   session_shutdown (cc_shutdown s).
 
 Definition connect (s : st) (during : bool) : st * nat :=
@@ -73,7 +72,8 @@ Definition run_task (s : st) (t : task) (o : oc) (during : bool) : st :=
   | KAddPool h =>
       match o with
       | Err => s                                   (* not generated: failures of pool creation belong to C25 *)
-      | Ok => let '(s, c) := connect s during in
+      | Ok => if negb (h <? nh s) then s else          (* not a host of this cluster: never generated *)
+              let '(s, c) := connect s during in
               if sess_down s then close s c          (* fix cbd87a0: shut down while connecting -> new_pool.shutdown() *)
               else close_opt (upd_pool s h (Some (Some c, false))) (pool_conn (pool s h))   (* previous.shutdown() *)
       end
@@ -84,9 +84,11 @@ Definition run_task (s : st) (t : task) (o : oc) (during : bool) : st :=
             match o with
             | Err => if sess_down s then s else set_queue s (queue s ++ [KReplace h c0])
             | Ok => let '(s, c) := connect s during in
-                    let shut := match pool s h with Some (_, b) => b | None => false end in
-                    let s := close (upd_pool s h (Some (Some c, shut))) c0 in
-                    if shut then set_leaked s true else s        (* pool shut down meanwhile: the new connection stays open *)
+                    match pool s h with
+                    | Some (Some _, false) =>                       (* self._connection = conn; old connection closed *)
+                        close_opt (upd_pool s h (Some (Some c, false))) (pool_conn (pool s h))
+                    | _ => close s c           (* fix 084ea49: pool shut down while connecting -> conn.close() *)
+                    end
             end
           else s
       | _ => s
@@ -151,7 +153,7 @@ Definition run (s : st) (os : list op) : st := fold_left (fun s o => fst (step s
 
 (* after Cluster.connect(): control connection = connection 0, one pool (connection h+1) per host *)
 Definition init (n : nat) : st :=
-  mk (S n) [] false false false false (fun h => if h <? n then Some (Some (S h), false) else None) (Some 0) [] [] false n.
+  mk (S n) [] false false false false (fun h => if h <? n then Some (Some (S h), false) else None) (Some 0) [] [] n.
 
 (* ---------------------------------------------------------------- observation *)
 Local Open Scope Z_scope.
